@@ -7,7 +7,7 @@ PROP = "C13"
 def run(tier, seed, t0):
     return _sess.run_session_check(
         PROP, tier, seed, t0,
-        families=[("listeners", 600, 10000), ("listener_cross", 200, 3000)],
+        families=[("listeners", 600, 10000), ("listener_cross", 200, 3000), ("mixed", 150, 2000)],
         mc_jobs=[("MC_Conn_listeners_q.cfg", None, "quick"), ("MC_Conn_listeners.cfg", None, "thorough")],
         rule="1-2 channels with confirm mode; seeded interleavings of: registering confirm / return listeners and the "
              "connection-blocked listener, replacing them, dropping their receivers, publishes (mandatory or not), server "
@@ -18,6 +18,9 @@ def run(tier, seed, t0):
              "still arriving; distinct = distinct step lists",
         nontrivial=lambda s: sum(1 for x in s["steps"] if x.get("do") in ("listen", "dropl")) >= 2,
         assumptions=_sess.COMMON_ASSUMPTIONS + [
+            "plus 'mixed' sessions: seeded interleavings of everything at once (RPCs, nowait calls, multi-frame publishes at "
+            "frame_max 4096, consumers, listeners, withheld replies, server deliveries/confirms/returns/cancels/channel closes, "
+            "transport stalls, read and write segmentation)",
             "for the connection-blocked listener only notices processed after the registration was processed are required"])
 
 
